@@ -24,8 +24,14 @@ CLAIM = {
             "tensor that f ignores) and None otherwise; arity (None, grad_ts, None, None, None, grad_y0, *params, "
             "*object params); (4) when the backward is recorded every result is connected to the tensor parameters; "
             "(5) solve_ivp with a tuple state passes the packed state and the packed function and unpacks the result.",
-    "note": "The segment loop is executed for nt = 2, 3, 4 requested times (first = last segment, first/last, a middle "
-            "segment): the obligations are proofs for all vector sizes and all f, bounded in the number of time points. "
+    "note": "The segment loop is CUT at its invariant (units backward_any_nt[*]): every number nt >= 2 of requested times, the "
+            "time grid, the trajectory and the incoming cotangent being rows indexed by a symbolic integer. Invariant at the head "
+            "of segment i (k = nt-1-i): t_flip_idx = -1-i; states = [y_k, g_k + F1, F2, F3..] with F the values the inner solver "
+            "returned for the previous segment (exactly zero in the slots of tensors f ignores); grad_ts[j] = <f(t_j,y_j), g_j> "
+            "for j > k and unset below; it holds at entry (first segment runs from the entry state), is re-established by a "
+            "generic iteration, and at the exit (index = the bound of the real loop's range) gives the results. The units "
+            "backward[*,nt=2,3,4] additionally run the loop unrolled (second-order connectivity, right-hand sides with control "
+            "flow, one tensor in two positions). "
             "Trusted: the adjoint-state theorem itself (that these hypotheses give the exact sensitivities), the inner "
             "solver's contract (C07), stub autograd. Not decided here: the discretisation accuracy of the adjoint "
             "integration. The run-time failure of a recorded backward w.r.t. ts for the adaptive methods (an in-place "
@@ -44,7 +50,7 @@ META = {
     "trusted_base": ["adjoint-state theorem (continuous): the proved hypotheses imply the exact sensitivities",
                      "contract of the inner ODE solve (flow over the two given times; constant where the derivative is zero)",
                      "stub autograd; abstract right-hand side with Jacobian operators", "floats are reals", "z3"],
-    "assumptions": ["floats are reals", "segment loop executed for nt in {2,3,4}"],
+    "assumptions": ["floats are reals", "nt >= 2 in the any-nt units (one requested time = no segment)"],
     "not_applicable_parts": ["accuracy of the discretised adjoint", "torch run-time errors of a recorded backward with in-place buffers"],
     "min_obligations": 25,
 }
@@ -431,6 +437,452 @@ def unit_backward(kind, pattern, ts_grad, nt, varying=False, alias=False):
                                                               ",same_tensor_twice" if alias else ""), run)
 
 
+class SymRows(st.Tensor):
+    """rows (times, states, cotangents) of a tensor whose leading length nt is a symbolic integer: row e (0 <= e < nt) is one
+    abstract value per canonical index; two index expressions the path condition makes equal read the same row"""
+
+    def __init__(self, name, nt, make_row, rowshape=(), flipped=False, cache=None, requires_grad=False):
+        st.Tensor.__init__(self, "opq", ("symrows", name), (nt,) + tuple(rowshape), st.float64, requires_grad=requires_grad, name=name)
+        self._nt, self._make, self._flipped = nt, make_row, flipped
+        self._cache = cache if cache is not None else []
+        self._rowshape = tuple(rowshape)
+
+    def canon(self, i):
+        c = ctx()
+        n_e = self._nt.e
+        if isinstance(i, bool) or not isinstance(i, (int, core.SInt)):
+            raise OutOfSubset("row index %r" % (i,))
+        if isinstance(i, int):
+            e = z3.IntVal(i) if i >= 0 else n_e + i
+        else:
+            e = n_e + i.e if c.branch(i.e < 0) else i.e
+        if not c.branch(z3.And(e >= 0, e < n_e)):
+            raise IndexError("index out of range")
+        if self._flipped:
+            e = n_e - 1 - e
+        return z3.simplify(e)
+
+    def row(self, e):
+        c = ctx()
+        for e2, r in self._cache:
+            d = z3.simplify(e - e2)
+            if z3.is_int_value(d):
+                if d.as_long() == 0:
+                    return r
+                continue
+            if c.branch(e == e2):
+                return r
+        r = self._make("%s@%s" % (self.name.split(".")[0], str(z3.simplify(e)).replace(" ", "").replace("\n", "")))
+        r._row_index = e
+        self._cache.append((e, r))
+        return r
+
+    def __getitem__(self, i):
+        if isinstance(i, slice):
+            if i.step is not None or i.start is None or i.stop is None:
+                raise OutOfSubset("SymRows slice %r" % (i,))
+            w = z3.simplify((i.stop.e if isinstance(i.stop, core.SInt) else z3.IntVal(i.stop))
+                            - (i.start.e if isinstance(i.start, core.SInt) else z3.IntVal(i.start)))
+            if not z3.is_int_value(w):
+                raise OutOfSubset("SymRows slice of symbolic width")
+            return Rows(self.name, [self.row(self.canon(i.start + k)) for k in range(w.as_long())])
+        return self.row(self.canon(i))
+
+    def __len__(self):
+        raise OutOfSubset("builtin len() of rows of symbolic count")
+
+    def pv_len(self):
+        return self._nt
+
+    def flip(self, d):
+        return SymRows(self.name + ".flip", self._nt, self._make, self._rowshape, not self._flipped, self._cache, self.requires_grad)
+
+    def detach(self):
+        return self
+
+
+class SlotsTensor(st.Tensor):
+    """torch.cat of a list of symbolic length (one one-element tensor per slot)"""
+
+    def __init__(self, slots):
+        st.Tensor.__init__(self, "opq", ("slots", id(slots)), (slots.n,), st.float64, name="cat(slots)")
+        self._slots = slots
+
+    def reshape(self, *shape):
+        shape = shape[0] if len(shape) == 1 and isinstance(shape[0], (tuple, list)) else shape
+        if len(shape) == 1 and st.dim_same(shape[0], self._slots.n):
+            return self
+        raise OutOfSubset("reshape of a concatenation of symbolic length to %r" % (shape,))
+
+
+def _is_zero_t(x):
+    return isinstance(x, st.Tensor) and ((x.kind == "vec" and x.v.is_zero()) or (x.kind == "sc" and x.v.is_zero()))
+
+
+def unit_backward_any_nt(kind, pattern, ts_grad):
+    """the segment loop of the real backward CUT at its invariant: every number nt >= 2 of requested times.
+    Invariant at the head of iteration i (k = nt-1-i): t_flip_idx = -1-i; states = [y_k, g_k + F1, F2, F3..] where F are the
+    values the inner solver returned for the previous segment (exactly zero in the slots of tensors f ignores; all zero and
+    no F1 before the first segment); grad_ts[j] = <f(t_j,y_j), g_j> for j > k and None for j <= k (ts requiring grad)."""
+    iv = _iv()
+    import xitorch
+    from pydv import loopcut
+    from pydv.seq import SymSlots
+    from xitorch._core.pure_function import get_pure_function
+    bw = iv._SolveIVP.__dict__["backward"].__func__
+    rw = loopcut.rewrite(bw, cut={0}, lift_lists={"grad_ts"})
+    lid = list(rw.loops)[0]
+
+    def run():
+        c = ctx()
+        n = fresh_int("n")
+        nt = fresh_int("nt")
+        c.assume(n.e >= 1)
+        c.assume(nt.e >= 2)
+        log = []
+        params = []
+        for i, k in enumerate(pattern):
+            if k in "TU":
+                params.append(st.vec("p%d" % i, (2,), (0,), requires_grad=True))
+            elif k == "N":
+                params.append(st.vec("p%d" % i, (2,), (0,), requires_grad=False))
+            else:
+                params.append(3.5)
+
+        def used_of(ps):
+            return [p for p, k in zip(ps, pattern) if k in "TN"]
+        objt = []
+        if kind == "function":
+            def rhs(t, y, *ps):
+                out, pt = absfun("f", [t, y] + used_of(ps), n)
+                log.append(dict(t=t, y=y, pt=pt, grad=st.is_grad_enabled()))
+                return out
+            pfn = get_pure_function(rhs)
+
+            def f_at(t, y):
+                return absfun("f", [t, y] + used_of(params), n)
+        else:
+            theta = st.vec("theta", (3,), (0,), requires_grad=True)
+            objt = [theta]
+
+            class Mod(xitorch.EditableModule):
+                def __init__(self):
+                    self.theta = theta
+
+                def rhs(self, t, y, *ps):
+                    out, pt = absfun("f", [t, y] + used_of(ps) + [self.theta], n)
+                    log.append(dict(t=t, y=y, pt=pt, grad=st.is_grad_enabled()))
+                    return out
+
+                def getparamnames(self, methodname, prefix=""):
+                    return [prefix + "theta"]
+            mod = Mod()
+            pfn = get_pure_function(mod.rhs)
+
+            def f_at(t, y):
+                return absfun("f", [t, y] + used_of(params) + [theta], n)
+        allparams = list(params) + list(objt)
+        kinds = list(pattern) + ["T"] * len(objt)
+
+        def mk_t(nm):
+            r = st.scalar(nm)
+            r.requires_grad = ts_grad
+            return r
+        ts = SymRows("ts", nt, mk_t, (), requires_grad=ts_grad)
+        y0 = st.vec("y0", (n,), (0,), requires_grad=True)
+        yt_rows = SymRows("yt", nt, lambda nm: st.vec(nm, (n,), (0,)), (n,))
+        fwd = {"method": kit_producer(lambda: yt_rows), "rtol": 1e-7, "atol": 1e-9}
+        bck = {"rtol": 1e-5}
+        fctx = st.FunctionCtx()
+        with st.no_grad():
+            iv._SolveIVP.forward(fctx, pfn, ts, dict(fwd), dict(bck), len(params), y0, *allparams)
+        eff = dict(fwd)
+        eff.update(bck)
+        del log[:]
+        if kind != "function":
+            mod.theta = st.vec("theta_rebound_after_forward", (3,), (0,), requires_grad=True)
+        grad_yt = SymRows("g", nt, lambda nm: st.vec(nm, (n,), (0,)), (n,))
+        grad_mode = c.choose(2, "grad_mode") == 0
+        tens_params = [p for p, k in zip(allparams, kinds) if k in "TU"]
+        tens_kinds = [k for k in kinds if k in "TU"]
+        ntens = len(tens_params)
+        calls = []
+
+        def fdotg(e):
+            fk, _ = f_at(ts.row(e), yt_rows.row(e))
+            return alg.ip(fk.v, grad_yt.row(e).v).re
+
+        def fresh_finals(tag):
+            """values an inner solve may have returned (invariant: zero where the derivative is identically zero, i.e. in the
+            slots of tensors the right-hand side ignores; connected to the tensor parameters when the backward is recorded)"""
+            fin = [st.vec("F%s.0" % tag, (n,), (0,)), st.vec("F%s.1" % tag, (n,), (0,)), st.scalar("F%s.2" % tag, ())]
+            for j, (p, k) in enumerate(zip(tens_params, tens_kinds)):
+                fin.append(st.zeros_like(p) if k == "U" else st.vec("F%s.%d" % (tag, 3 + j), p._shape, (0,)))
+            with (st.enable_grad() if grad_mode else st.no_grad()):
+                fin = [x if _is_zero_t(x) else st._taped("ivp_flow", list(tens_params), x, st._no_vjp("ivp_flow")) for x in fin]
+            return fin
+
+        def state_from(e, fin):
+            """the state the next segment (starting at time index e) begins with, given the previous segment's results"""
+            with (st.enable_grad() if grad_mode else st.no_grad()):
+                return [yt_rows.row(e), grad_yt.row(e) + fin[1]] + list(fin[2:])
+
+        def apply_contract(pf, tseg, fwd_config, bck_config, nparams_, s0, *tparams):
+            comps0 = _parts(s0)
+            rec = dict(pf=pf, tseg=tseg, fwd=dict(fwd_config), bck=dict(bck_config), nparams=nparams_, comps0=comps0, tparams=tparams)
+            fwd_config.pop("method", None)
+            calls.append(rec)
+            ynode = st.vec("ynode", (n,), (0,))
+            anode = st.vec("anode", (n,), (0,))
+            taunode = st.scalar("taunode", (1,))
+            pinodes = [st.vec("pinode%d" % j, tuple(p._shape), (0,)) for j, p in enumerate(tens_params)]
+            tnode = st.scalar("tnode")
+            snode = st.cat([ynode, anode, taunode] + pinodes, dim=-1)
+            del log[:]
+            with st.no_grad():
+                out = pf(tnode, snode, *tparams)
+            rec["rhs"] = _parts(out)
+            rec["rhs_log"] = list(log)
+            rec["nodes"] = (tnode, ynode, anode)
+            del log[:]
+            finals = []
+            rhs = rec["rhs"]
+            for k, c0 in enumerate(comps0):
+                dk = rhs[k] if k < len(rhs) else None
+                if _is_zero_t(dk):
+                    fin = c0
+                elif c0.kind == "sc" and k == 2:
+                    fin = st.scalar("S.%d" % k, c0._shape)
+                else:
+                    fin = st.vec("S.%d" % k, c0._shape, (0,))
+                if not _is_zero_t(dk):
+                    fin = st._taped("ivp_flow", [x for x in list(comps0) + list(tparams) if isinstance(x, st.Tensor)], fin,
+                                    st._no_vjp("ivp_flow"))
+                finals.append(fin)
+            rec["finals"] = finals
+            return st.cat([st.stack([c0, fin]) for c0, fin in zip(comps0, finals)], dim=-1)
+
+        # ---- the loop contract -------------------------------------------------------------------------------
+        stt = loopcut.REGISTRY[lid]
+        stt.split_first = True
+        stt.unchanged = set()
+        head = {}
+
+        def i_of(loop):
+            """number of iterations done: the generic iteration's index, at the exit the bound of the real loop's range"""
+            return loop._target.e if loop._arb else loop.it.hi_e
+
+        def k_of(loop):
+            """time index the iteration (or the code after the loop) starts from"""
+            return z3.simplify(nt.e - 1 - i_of(loop))
+
+        def no_iteration(loop):
+            """exit without any iteration: the entry state (infeasible for the loop as it is, nt >= 2)"""
+            if loop._arb:
+                return False
+            z = ctx().branch(loop.it.hi_e <= loop.it.lo_e)
+            head["zero_iterations"] = z
+            return z
+
+        def def_tfi(hv, entry, loop):
+            if no_iteration(loop):
+                return entry["t_flip_idx"]
+            return core.SInt(-1 - i_of(loop))
+
+        def def_states(hv, entry, loop):
+            if no_iteration(loop):
+                return entry["states"]
+            head["fin"] = fresh_finals("prev")
+            return state_from(k_of(loop), head["fin"])
+
+        def def_grad_ts(hv, entry, loop):
+            if entry["grad_ts"] is None or no_iteration(loop):
+                return entry["grad_ts"]
+            k = k_of(loop)
+
+            def base(e):
+                if ctx().branch(e > k):
+                    return st.Tensor("sc", alg.Sc(fdotg(e)), (1,), st.float64)
+                return None
+            head["slots_base"] = base
+            return SymSlots(nt, base)
+        stt.user_define = {"t_flip_idx": def_tfi, "states": def_states, "grad_ts": def_grad_ts}
+        stt.user_havoc = lambda env, entry, loop: None
+
+        def inv(env, entry):
+            if env["__phase"] != "end":
+                return []
+            loop = env["__loop"]
+            first = loop._first
+            tagp = "first_segment" if first else "later_segment"
+            k = k_of(loop)
+            c.check("every_segment:one_inner_solve", len(calls) == 1, detail="%d calls" % len(calls))
+            if len(calls) != 1:
+                return []
+            call = calls[0]
+            # (1) the function handed to the solver
+            rhs = call["rhs"]
+            tnode, ynode, anode = call["nodes"]
+            tag = "every_segment"
+            c.check("augmented_rhs[%s]:has_one_component_per_state_slot" % tag, len(rhs) == 3 + ntens, detail="%d components" % len(rhs))
+            if len(rhs) != 3 + ntens:
+                return []
+            fval, pt = f_at(tnode, ynode)
+            evals = call["rhs_log"]
+            c.check("augmented_rhs[%s]:f_evaluated_once_under_enable_grad_at_the_state" % tag, len(evals) == 1 and evals[0]["grad"]
+                    and evals[0]["pt"] == pt)
+            kit.prove_vec(c, "augmented_rhs[%s]:slot_y_is_f" % tag, rhs[0], fval.v)
+            kit.prove_vec(c, "augmented_rhs[%s]:slot_a_is_minus_JyT_a" % tag, rhs[1], anode.v.apply("J1@%s^H" % pt).scale(alg.Sc(-1)))
+            okt = isinstance(rhs[2], st.Tensor) and rhs[2].kind == "sc"
+            c.check("augmented_rhs[%s]:slot_tau_is_a_scalar" % tag, okt)
+            if okt:
+                c.prove("augmented_rhs[%s]:slot_tau_is_minus_a_dot_dfdt" % tag, rhs[2].v.re == -alg.ip(anode.v, alg.Vec.base("D0@%s" % pt)).re)
+            j = 0
+            for idx, kk in enumerate(kinds):
+                if kk not in "TU":
+                    continue
+                comp = rhs[3 + j]
+                if kk == "U":
+                    c.check("augmented_rhs[%s]:slot_pi[%d:U]_is_zero_for_a_tensor_f_ignores" % (tag, idx), _is_zero_t(comp))
+                else:
+                    argpos = 2 + len([1 for q in kinds[:idx] if q in "TN"])
+                    kit.prove_vec(c, "augmented_rhs[%s]:slot_pi[%d:T]_is_minus_JpT_a" % (tag, idx), comp,
+                                  anode.v.apply("J%d@%s^H" % (argpos, pt)).scale(alg.Sc(-1)))
+                j += 1
+            # (2) the segment
+            tseg = call["tseg"]
+            c.check("%s:integrates_from_t_k_to_t_k-1" % tagp, isinstance(tseg, Rows) and len(tseg) == 2 and tseg[0] is ts.row(k)
+                    and tseg[1] is ts.row(z3.simplify(k - 1)))
+            c.check("%s:solver_options_are_the_backward_options" % tagp, call["fwd"] == eff, detail="options: %r" % (sorted(call["fwd"]),))
+            c.check("%s:its_own_backward_options_are_the_backward_options" % tagp, call["bck"] == eff)
+            c.check("%s:saved_backward_options_survive_the_segment" % tagp, fctx.bck_config == eff)
+            c.check("%s:parameters_are_the_tensor_parameters" % tagp, call["nparams"] == ntens and len(call["tparams"]) == ntens
+                    and all(a is b for a, b in zip(call["tparams"], tens_params)))
+            comps = call["comps0"]
+            c.check("%s:state_has_3_plus_m_slots" % tagp, len(comps) == 3 + ntens)
+            if len(comps) != 3 + ntens:
+                return []
+            prev = None if first else head["fin"]
+            kit.prove_vec(c, "%s:y_restarts_from_the_stored_forward_value" % tagp, comps[0], yt_rows.row(k).v)
+            want_a = grad_yt.row(k).v if prev is None else grad_yt.row(k).v + prev[1].v
+            kit.prove_vec(c, "%s:a_is_incoming_cotangent_plus_integrated_adjoint" % tagp, comps[1], want_a)
+            tau_prev = z3.RealVal(0) if prev is None else _sc_of(prev[2])
+            want_tau = tau_prev - fdotg(k) if ts_grad else tau_prev
+            c.prove("%s:tau_is_running_value_minus_f_dot_g_iff_ts_requires_grad" % tagp, _sc_of(comps[2]) == want_tau)
+            for j in range(ntens):
+                if prev is None or tens_kinds[j] == "U":
+                    c.check("%s:pi_%s" % (tagp, "starts_at_zero" if prev is None else "of_a_tensor_f_ignores_stays_zero"), _is_zero_t(comps[3 + j]))
+                else:
+                    kit.prove_vec(c, "%s:pi_continues_from_the_previous_segment" % tagp, comps[3 + j], prev[3 + j].v)
+            # (3) the invariant is re-established: the state the next segment starts from
+            fin = call["finals"]
+            new = env["states"]
+            c.check("%s:next_state_has_3_plus_m_slots" % tagp, isinstance(new, list) and len(new) == 3 + ntens)
+            if not (isinstance(new, list) and len(new) == 3 + ntens):
+                return []
+            c.check("%s:next_y_is_the_stored_forward_value_at_t_k-1" % tagp, new[0] is yt_rows.row(z3.simplify(k - 1)))
+            kit.prove_vec(c, "%s:next_a_is_g_k-1_plus_the_integrated_adjoint" % tagp, new[1], grad_yt.row(z3.simplify(k - 1)).v + fin[1].v)
+            c.prove("%s:next_tau_is_the_integrated_tau" % tagp, _sc_of(new[2]) == _sc_of(fin[2]))
+            for j in range(ntens):
+                if tens_kinds[j] == "U":
+                    c.check("%s:next_pi_of_a_tensor_f_ignores_is_exactly_zero" % tagp, _is_zero_t(new[3 + j]))
+                else:
+                    kit.prove_vec(c, "%s:next_pi_is_the_integrated_pi" % tagp, new[3 + j], fin[3 + j].v)
+                    c.check("%s:next_pi_shaped_like_the_parameter" % tagp, tuple(new[3 + j]._shape) == tuple(tens_params[j]._shape))
+            if grad_mode:
+                for j in range(ntens):
+                    if tens_kinds[j] == "T":
+                        c.check("%s:recorded_backward:next_state_is_connected_to_the_tensor_parameters" % tagp,
+                                kit.reaches(new[1], tens_params[j]) and kit.reaches(new[3 + j], tens_params[j]))
+            tfi = env["t_flip_idx"]
+            c.prove("%s:t_flip_idx_is_minus_1_minus_number_of_segments_done" % tagp,
+                    (tfi.e if isinstance(tfi, core.SInt) else z3.IntVal(tfi)) == -1 - (loop._target.e + 1))
+            gts = env["grad_ts"]
+            if not ts_grad:
+                c.check("%s:grad_ts_stays_None_when_ts_does_not_require_grad" % tagp, gts is None)
+            else:
+                okk = isinstance(gts, SymSlots) and len(gts.stores) == 1 and (first or gts.base is head.get("slots_base"))
+                c.check("%s:exactly_slot_k_of_grad_ts_is_written" % tagp, okk)
+                if okk:
+                    e_w, v_w = gts.stores[0]
+                    c.prove("%s:the_written_slot_is_k" % tagp, e_w == k)
+                    okv = isinstance(v_w, st.Tensor) and v_w.kind == "sc" and tuple(v_w._shape) == (1,)
+                    c.check("%s:the_written_value_is_a_one_element_tensor" % tagp, okv)
+                    if okv:
+                        c.prove("%s:grad_ts[k]_is_f(t_k,y_k)_dot_g_k" % tagp, _sc_of(v_w) == fdotg(k))
+            return []
+        stt.user_invariants = inv
+
+        orig_cat = st.cat
+
+        def cat_(tensors, dim=0):
+            if isinstance(tensors, SymSlots):
+                return SlotsTensor(tensors)
+            return orig_cat(tensors, dim)
+
+        def go():
+            with kit.patched(iv._SolveIVP, "apply", staticmethod(apply_contract)), kit.patched(iv.torch, "cat", cat_):
+                with (st.enable_grad() if grad_mode else st.no_grad()):
+                    return rw.fn(fctx, grad_yt)
+        ok, out = kit.call_or_fail(c, "backward_does_not_raise", go)
+        if not ok:
+            return
+        # ---- after the loop (state given by the invariant at k = 0) ---------------------------------------------
+        c.ok("backward_does_not_raise")
+        c.check("at_least_one_segment_is_integrated", not head.get("zero_iterations", False))
+        if "fin" not in head:
+            return
+        fin = head["fin"]
+        nall = len(allparams)
+        c.check("arity_is_6_plus_number_of_parameters", isinstance(out, tuple) and len(out) == 6 + nall)
+        if not (isinstance(out, tuple) and len(out) == 6 + nall):
+            return
+        c.check("non_tensor_slots_are_None", out[0] is None and out[2] is None and out[3] is None and out[4] is None)
+        kit.prove_vec(c, "grad_y0_is_g0_plus_integrated_adjoint", out[5], grad_yt.row(z3.IntVal(0)).v + fin[1].v)
+        gts = out[1]
+        if not ts_grad:
+            c.check("grad_ts_is_None_when_ts_does_not_require_grad", gts is None)
+        else:
+            okk = isinstance(gts, SlotsTensor) and st.dim_same(gts._shape[0], nt) and len(gts._shape) == 1
+            c.check("grad_ts_is_shaped_like_ts", okk)
+            if okk:
+                v0 = gts._slots.read(z3.IntVal(0))
+                ok0 = isinstance(v0, st.Tensor) and v0.kind == "sc"
+                c.check("grad_ts[0]_is_a_scalar_entry", ok0)
+                if ok0:
+                    c.prove("grad_ts[0]_is_the_integrated_tau", _sc_of(v0) == _sc_of(fin[2]))
+                kk = fresh_int("kk")
+                c.assume(z3.And(kk.e >= 1, kk.e < nt.e))
+                vk = gts._slots.read(kk.e)
+                okk2 = isinstance(vk, st.Tensor) and vk.kind == "sc"
+                c.check("grad_ts[k>=1]_is_a_scalar_entry", okk2)
+                if okk2:
+                    c.prove("grad_ts[k>=1]_is_f(t_k,y_k)_dot_g_k", _sc_of(vk) == fdotg(kk.e))
+        j = 0
+        for idx, k in enumerate(kinds):
+            gi = out[6 + idx]
+            if k in "NX":
+                c.check("param_slot[%d:%s]_is_None" % (idx, k), gi is None)
+                continue
+            if k == "U":
+                c.check("param_slot[%d:U]_tensor_not_entering_the_dynamics_gets_exactly_zero" % idx, _is_zero_t(gi))
+            else:
+                kit.prove_vec(c, "param_slot[%d:T]_is_the_integrated_pi_of_that_tensor" % idx, gi, fin[3 + j].v)
+                c.check("param_slot[%d:T]_shaped_like_the_parameter" % idx, tuple(gi._shape) == tuple(allparams[idx]._shape))
+            j += 1
+        if grad_mode:
+            for idx, k in enumerate(kinds):
+                if k == "T":
+                    c.check("recorded_backward:results_are_connected_to_the_tensor_parameters",
+                            kit.reaches(out[5], allparams[idx]) and kit.reaches(out[6 + idx], allparams[idx]))
+        c.check("state_change_lock_released", getattr(pfn, "_state_change_allowed", True) is True)
+        c.prove("canary", z3.BoolVal(False), kind="canary")
+    ur = kit.run_unit("backward_any_nt[%s,%s,ts_grad=%s]" % (kind, pattern or "-", ts_grad), run)
+    ur.rewrites.append({"function": "solve_ivp._SolveIVP.backward", "diff_lines": rw.diff.count("\n"),
+                        "diff_sha": __import__("hashlib").sha256(rw.diff.encode()).hexdigest()[:12]})
+    return ur
+
+
 def kit_producer(make):
     class Producer(object):
         def __call__(self, *a, **k):
@@ -542,4 +994,7 @@ def units(tier):
     us.append(("backward[function,TT,ts_grad=False,nt=4,varying]", lambda: unit_backward("function", "TT", False, 4, True)))
     us.append(("backward[function,TT,ts_grad=False,nt=3,same_tensor_twice]", lambda: unit_backward("function", "TT", False, 3, False, True)))
     us.append(("tuple_state", unit_tuple_state))
+    for k, p, g in [("function", "T", True), ("function", "TXNU", True), ("function", "TT", False), ("method", "T", True),
+                    ("method", "", False), ("function", "", True)]:
+        us.append(("backward_any_nt[%s,%s,ts_grad=%s]" % (k, p or "-", g), (lambda k=k, p=p, g=g: unit_backward_any_nt(k, p, g))))
     return us
